@@ -9,7 +9,7 @@
 (* disagreement; "not accepted" (the log is not consumed to its end) can   *)
 (* only mean a malformed log or a specification bug.                       *)
 (***************************************************************************)
-EXTENDS Integers, Sequences, TLC, Json, J_Prims, J_Build, J_Tables, J_C07, J_C15
+EXTENDS Integers, Sequences, TLC, Json, J_Prims, J_Build, J_Tables, J_C07, J_C15, J_Text
 
 CONSTANT TraceFile
 Log == ndJsonDeserialize(TraceFile)
@@ -26,6 +26,7 @@ Judge(e) ==
          [] e.op = "Twins" -> JTwinsWith(e, JAcc2One)
          [] e.op = "Tables" -> JTables(e)
          [] e.op = "IdentityPair" -> JIdentityPair(e)
+         [] e.op \in {"TextEnc", "TextDec", "TextEncChunks", "TextDecMutate", "TextGuard"} -> JText(e)
          [] e.op = "Extrema" -> JExtrema(e)
          [] e.op = "ExpiryProbe" -> JExpiryProbe(e)
          [] e.op = "Build" -> JBuild(e)
